@@ -1443,6 +1443,13 @@ class Interp:
             raise Refuse(f"enum attribute {attr}")
         if ty.k in ("list", "dict", "set", "str", "tuple", "ip", "float", "int"):
             return PContainerMethod(SV(base.t, ty, base.c), attr)
+        if ty.k == "type":
+            inner = ty.a[0]
+            if inner.k == "enum" and attr in inner.a[0].enum_members():
+                # a class object of that enum family (e.g. Type[BaseKillChain]): members every family member repeats
+                st.log.append(f"member {attr} read through a class object of type Type[{inner.a[0].name}]: taken from {inner.a[0].name}")
+                return enum_value_sv(inner.a[0], attr)
+            raise Refuse(f"attribute {attr} of class object {ty}")
         if ty.k == "ext":
             return self.ext_attr(base, ty.a[0], attr)
         if ty.k == "obj":
